@@ -387,7 +387,8 @@ same type as the number. ndigits may be negative.`
 
 func builtin_round(self py.Object, args py.Tuple, kwargs py.StringDict) (py.Object, error) {
 	var number, ndigits py.Object
-	ndigits = py.Int(0)
+	// without ndigits the result is an int, round(x, 0) keeps the type of x
+	ndigits = py.None
 	// var kwlist = []string{"number", "ndigits"}
 	// FIXME py.ParseTupleAndKeywords(args, kwargs, "O|O:round", kwlist, &number, &ndigits)
 	err := py.UnpackTuple(args, nil, "round", 1, 2, &number, &ndigits)
